@@ -920,6 +920,10 @@ pub unsafe extern "C" fn SFileEnumFiles(
         ArchiveHandle::Mutable { archive, .. } => archive.list(),
     };
 
+    // The callback typically calls back into this API (SFileHasFile, SFileOpenFileEx, ...),
+    // which takes the archive table again: it must not run while the table is locked
+    drop(archives);
+
     match file_list {
         Ok(entries) => {
             for entry in entries {
